@@ -258,8 +258,9 @@ def entries():
     add("CauchyCDF", "transform", lambda: NL.CauchyCDF(), _rn(3), flags={"anyshape", "inv", "noparams"}, y=_ru(3))
     add("CauchyCDFInverse", "transform", lambda: NL.CauchyCDFInverse(), _ru(3), flags={"inv", "bounded01", "noparams"}, y=_rn(3))
     add("PointwiseAffine/tensor", "transform", lambda: TR.PointwiseAffineTransform(shift=torch.tensor([0.5, -1.0, 2.0]), scale=torch.tensor([2.0, -0.5, 3.0])), _rn(3), flags={"inv", "noparams"}, build_alt=lambda: TR.PointwiseAffineTransform(shift=torch.tensor([0.0, 0.0, 0.0]), scale=torch.tensor([1.0, 1.0, 1.0])))
-    # unit-conversion constants: scales far from one but well inside single precision (their squares are not)
-    add("PointwiseAffine/scales-1e-25-and-1e22", "transform", lambda: TR.PointwiseAffineTransform(shift=torch.tensor([0.5, -1.0, 2.0]), scale=torch.tensor([1e-25, -3.0, 1e22])), _rn(3), flags={"inv", "noparams"}, build_alt=lambda: TR.PointwiseAffineTransform(shift=torch.tensor([0.0, 0.0, 0.0]), scale=torch.tensor([1.0, 1.0, 1.0])))
+    # unit-conversion constants: scales far from one but well inside single precision (their squares are not); no offset on the tiny
+    # scale: 0.5 + 1e-25 x is 0.5 in any precision, nothing an inverse could undo (C02 said so at once)
+    add("PointwiseAffine/scales-1e-25-and-1e22", "transform", lambda: TR.PointwiseAffineTransform(shift=torch.tensor([0.0, -1.0, 2.0]), scale=torch.tensor([1e-25, -3.0, 1e22])), _rn(3), flags={"inv", "noparams"}, build_alt=lambda: TR.PointwiseAffineTransform(shift=torch.tensor([0.0, 0.0, 0.0]), scale=torch.tensor([1.0, 1.0, 1.0])))
     add("PointwiseAffine/scalar-image", "transform", lambda: TR.PointwiseAffineTransform(shift=0.5, scale=-2.0), _rn(2, 3, 2), flags={"anyshape", "inv", "noparams", "image"})
     add("GatedLinearUnit", "transform", lambda: NL.GatedLinearUnit(), _rn(3), _rn(3), flags={"inv", "noparams"})
     add("GatedLinearUnit/row-gate", "transform", lambda: NL.GatedLinearUnit(), _rn(3), _rn(1), flags={"inv", "noparams"})
